@@ -108,7 +108,7 @@ def ruleGroups (b : Branch) (s : Sent) (d : Option Bool) (w : Option Nat)
   | some (sh, ng, whole) =>
     match L.rule? ⟨sh, ng, d⟩, whole.lhs? with
     | some r, some l0 =>
-        if sh.isModalShape && w.isNone then none
+        if (sh.isModalShape && w.isNone) || !whole.quantOK L then none
         else
           match witnessGroups b whole l0 w c wo r with
           | some gs => some (r, gs)
